@@ -947,8 +947,7 @@ def gen_acc_case(rng, acc=None, nops=None):
             hist.append({"my": rng.randint(0, nc), "key": rng.choice(NAMES)})
         elif r < 0.95 and nf:
             hist.append({"mf": rng.randint(0, nf - 1), "key": rng.choice(NAMES)})
-        elif nc and kind not in ("vectorize", "vec_list", "graph", "histogram", "sib", "vmc", "zip", "zip_same", "mean_dsum",
-                                 "split_fc", "fillcompute", "fc_seq"):
+        elif nc and kind in ("sum", "dsum", "count", "store", "keeplast"):
             hist.append({"rf": rng.randint(0, nc)})
         else:
             hist.append({"c": 1})
